@@ -200,17 +200,22 @@ def type (x : PyVal) : R := .ok (.type (typeOf x))
 
 def not (x : PyVal) : R := .ok (b (!truthy x))
 
-/-- `isinstance(x, classes)` with `classes` a tuple: left to right, a non-type raises -/
-def isinstanceL (x : PyVal) : List PyVal → Except Exc Bool
-  | [] => .ok false
-  | .type t :: rest => if instOf x t then .ok true else isinstanceL x rest
-  | _ :: _ => .error .typeError
-
-def isinstance (x : PyVal) (classes : PyVal) : R :=
-  match classes with
-  | .tuple cs => do pure (b (← isinstanceL x cs))
-  | .type t => .ok (b (instOf x t))
+mutual
+/-- `isinstance(x, c)`: `c` a type, or a (nested) tuple of types examined left to right;
+    anything else raises -/
+def isinstC (x : PyVal) : PyVal → Except Exc Bool
+  | .type t => .ok (instOf x t)
+  | .tuple cs => isinstL x cs
   | _ => .error .typeError
+termination_by structural c => c
+def isinstL (x : PyVal) : List PyVal → Except Exc Bool
+  | [] => .ok false
+  | c :: rest => do
+      if (← isinstC x c) then pure true else isinstL x rest
+termination_by structural cs => cs
+end
+
+def isinstance (x : PyVal) (classes : PyVal) : R := do pure (b (← isinstC x classes))
 
 /-- `d.keys()` – the model represents the keys view by the mapping itself (`in`, iteration and
     `set()` of a keys view behave like those of the mapping). -/
